@@ -3,7 +3,10 @@
 Every history starts from a booted pipeline (real FSM, deferred branches, boot completed: running/active).
 Events of a history (JSON strings):
   'S:<PRIO>'   a whole submission through the deprecated front end dawgie.fe.submit (Defer.__call__ -> Process
-               step_0..step_3 run in one reactor turn; git/compliance replaced by fakes that succeed)
+               step_0..step_3 run in one reactor turn; git/compliance replaced by fakes that succeed).  In the
+               enumeration it is executed in every configuration but its successor is not expanded (on the FSM
+               it equals 'B:<PRIO>','F:ok'); when it leads somewhere new it is followed by a fixed probe
+               ('F:ok' for the other front end's pending submission, then quiescence).  Random walks continue.
   'B:<PRIO>'   a submission through dawgie.fe.api.submit begins: step_1, step_2 (-> gitting); the compliance
                child process is now running and the reactor is free
   'F:ok' / 'F:fail'  that child ends (VerifyHandler.processEnded): step_3 (running, set_submit_info,
@@ -22,8 +25,8 @@ Events of a history (JSON strings):
                steps to quiescence
 
 Oracle (from the property statement; the lattice and the conditions are written here, not read from the code):
-  pending = strongest priority (NOW > CREW > DOING > TODO) among the submissions accepted (success reply)
-            since the last accepted update_trigger
+  pending = strongest priority (NOW > CREW > DOING > TODO) among the submissions accepted (see below) since the
+            last accepted update_trigger (= the reload was triggered: running -> updating)
   C12.condition   an accepted update_trigger happens only while cond(pending) holds at that instant
                   (NOW: always; CREW: farm._busy empty; DOING: view_doing() empty; TODO: schedule.que empty)
   C12.once        no accepted update_trigger while nothing is pending (second reload for one cycle)
@@ -34,6 +37,8 @@ Oracle (from the property statement; the lattice and the conditions are written 
                   reply, no compliance run started)
 A submission counts as submitted-and-accepted when it was made while the pipeline was at rest in running and its
 git/compliance steps succeeded (always, for 'S'; 'F:ok' for 'B') - whatever the code then replied.
+Out of scope: thread-level interleavings (everything runs on the harness thread), cmd_reset, the second step_3 the
+deprecated front end runs when its compliance child ends (not driven).
 """
 
 import collections
@@ -41,9 +46,7 @@ import heapq
 import json
 import os
 import random
-import shutil
 import threading
-import tempfile
 import time
 
 from . import _fsm_common as K
@@ -73,7 +76,6 @@ PRIOS = ('NOW', 'CREW', 'DOING', 'TODO')
 RANK = {'TODO': 0, 'DOING': 1, 'CREW': 2, 'NOW': 3}
 VALUE = {'NOW': 'now', 'CREW': 'crew_idle', 'DOING': 'doing_empty', 'TODO': 'todo_empty'}  # the wire strings
 KINDS = {'crew': 'is_crew_done', 'doing': 'is_doing_done', 'todo': 'is_todo_done'}
-SCRATCH = {'dir': None}
 
 
 def stronger(a, b):
@@ -149,16 +151,13 @@ def install():
 
 
 def scratch_repo():
-    if SCRATCH['dir'] is None:
-        SCRATCH['dir'] = tempfile.mkdtemp(prefix='verif-c12-')
-        os.makedirs(os.path.join(SCRATCH['dir'], 'ae', '.git'))
-    return os.path.join(SCRATCH['dir'], 'ae')
+    path = os.path.join(K.scratch_dir(), 'ae')
+    os.makedirs(os.path.join(path, '.git'), exist_ok=True)
+    return path
 
 
 def scratch_remove():
-    if SCRATCH['dir'] is not None:
-        shutil.rmtree(SCRATCH['dir'], ignore_errors=True)
-        SCRATCH['dir'] = None
+    K.scratch_remove()
 
 
 def make_node(running):
@@ -471,7 +470,13 @@ class Rig12(K.Rig):
                     'the reload is triggered once the condition of the strongest pending priority holds',
                 )
             )
-        self.last = {'before': before, 'effects': (effects_before, self.effects()), 'replies': replies, 'calls': calls}
+        self.last = {
+            'before': before,
+            'effects': (effects_before, self.effects()),
+            'replies': replies,
+            'calls': calls,
+            'refusal_checked': attempted is not None and not was_active,
+        }
         return out
 
     def lost_reason(self, calls):
@@ -587,6 +592,7 @@ def explore(archive_mode, max_subs, deadline, coll, stats, samples, all_front_en
                 found = [(v, len(history)) for v in rig.apply(event)]
                 stats['cases'] += 1
                 stats['events'] += 1
+                stats['refusals'] += int(rig.last['refusal_checked'])
                 key = rig.key()
                 if stats['cases'] % 101 == 0:  # self-check of the rig: replay on a newly constructed FSM agrees
                     rig3, found3, _ = run_history(h2, archive_mode, reuse=False)
@@ -616,7 +622,7 @@ def explore(archive_mode, max_subs, deadline, coll, stats, samples, all_front_en
                     seen[key] = h2
                     stats['nontrivial'] += 1
                     heapq.heappush(nxt if event[0] == 'B' else layer, (len(h2), len(seen), h2))
-                    if len(samples) < 4 and len(h2) in (5, 8, 11) and sum(e[0] == 'B' for e in h2) >= 2:
+                    if len(h2) in (5, 8, 11, 14) and sum(e[0] == 'B' for e in h2) >= 2 and not any(len(x['history']) == len(h2) for x in samples):
                         samples.append({'archive': archive_mode, 'history': list(h2), 'ends_in': K.snap_dict(rig.snapshot())})
                 if key == here:
                     continue
@@ -667,9 +673,10 @@ def run(tier: str, seed: int) -> dict:
     t0 = time.time()
     thorough = tier == 'thorough'
     # quick: bound 4, one archive mode, one (rotating) priority per configuration through the deprecated front end;
-    # layers <= 3 take ~5 s, layer 4 is cut at the deadline on a slow machine (then 'exhaustive' is False).
+    # ~12 s on an idle machine; layers <= 3 take ~4 s, on a busy machine layer 4 is cut at the deadline (then
+    # 'exhaustive' is False and the rule says how far it got).
     # thorough: bound 8 - the closure stops earlier, at its fixpoint (no new configuration after 5 attempts).
-    deadline = t0 + (240 if thorough else 14)
+    deadline = t0 + (240 if thorough else 12.5)
     max_subs = 8 if thorough else 4
     coll = Collector()
     stats = collections.Counter()
@@ -687,10 +694,12 @@ def run(tier: str, seed: int) -> dict:
                 + (', fixpoint reached (covers every longer history)' if st.get('fixpoint') else '')
                 + (f", stopped at the deadline with {st['left_in_layer']} configurations of layer {st['layers']} left" if st.get('timeout') else '')
             )
-            stats.update({k: v for k, v in st.items() if k in ('cases', 'nontrivial', 'replays', 'crosschecks', 'configs')})
+            stats.update(
+                {k: v for k, v in st.items() if k in ('cases', 'nontrivial', 'replays', 'crosschecks', 'configs', 'refusals')}
+            )
         rng = random.Random(seed)
         walks = random_walks(
-            rng, 2000 if thorough else 100, 40 if thorough else 25, 6, t0 + (280 if thorough else 16.5), coll, stats
+            rng, 2000 if thorough else 100, 40 if thorough else 25, 6, t0 + (280 if thorough else 15), coll, stats
         )
     finally:
         scratch_remove()
@@ -703,6 +712,7 @@ def run(tier: str, seed: int) -> dict:
             'on (FSM snapshot, world, submission in progress, pending priority); layers by number of submission '
             'attempts; distinct = pairs that reached a new configuration or ran a quiescence / deprecated-front-end '
             'check, plus distinct random walks (un-merged, newly constructed FSM each). ' + '; '.join(notes)
+            + f"; {stats['refusals']} of the pairs are submissions attempted while not active (all must be refused)"
             + f"; {walks} random walks; {stats['crosschecks']} replays cross-checked on a newly constructed FSM"
         ),
         'exhaustive': bool(closed),
